@@ -127,59 +127,4 @@ theorem summary_cons (a : Addr) (x y : Pkt) (rest : List Pkt) :
   simp only [summary, updCand, List.map_cons, List.head?_cons, Option.map_some, Option.getD_some,
     List.length_cons, List.any_cons, runLen, lowest, hc, Bool.or_comm]
 
-/-- **the code's table is the history summary** -/
-theorem observeAll_eq_tableOf (h : List Pkt) : observeAll h = tableOf h := by
-  induction h with
-  | nil => simp [observeAll, tableOf, srcs]
-  | cons x h ih =>
-    have hf : ∀ b, ((fun a => summary a (ofSrc h a)) b).addr = b := fun b => rfl
-    simp only [observeAll, ih, tableOf]
-    by_cases hm : x.addr ∈ srcs h
-    · rw [observe_map_mem _ _ hf _ _ _ _ (srcs_nodup h) hm]
-      simp only [srcs, hm, ↓reduceIte]
-      apply List.map_congr_left
-      intro b hb
-      rw [ofSrc_cons]
-      by_cases he : b = x.addr
-      · subst he
-        simp only [↓reduceIte]
-        have hne := ofSrc_ne_nil h x.addr hb
-        cases hl : ofSrc h x.addr with
-        | nil => exact absurd hl hne
-        | cons y rest => rw [summary_cons]
-      · have he' : ¬ x.addr = b := fun h' => he h'.symm
-        simp [he, he']
-    · rw [observe_map_not_mem _ _ hf _ _ _ _ hm]
-      simp only [srcs, hm, ↓reduceIte, List.map_append, List.map_cons, List.map_nil]
-      congr 1
-      · apply List.map_congr_left
-        intro b hb
-        rw [ofSrc_cons]
-        have : x.addr ≠ b := fun he => hm (he ▸ hb)
-        simp [this]
-      · rw [ofSrc_cons]; simp [ofSrc_nil h x.addr hm, summary_single]
-
-theorem runLen_ge_two (l : List Pkt) :
-    runLen l ≥ 2 ↔ ∃ x y z rest, l = x :: y :: z :: rest ∧ x.seq = wrapInc y.seq ∧ y.seq = wrapInc z.seq := by
-  match l with
-  | [] => simp [runLen]
-  | [x] => simp [runLen]
-  | [x, y] => simp [runLen, satInc, consecMax_eq]; split <;> omega
-  | x :: y :: z :: rest =>
-    simp only [runLen, satInc, consecMax_eq]
-    constructor
-    · intro h
-      refine ⟨x, y, z, rest, rfl, ?_, ?_⟩
-      · by_cases h1 : x.seq = wrapInc y.seq
-        · exact h1
-        · simp [h1] at h
-      · by_cases h2 : y.seq = wrapInc z.seq
-        · exact h2
-        · by_cases h1 : x.seq = wrapInc y.seq <;> simp [h1, h2] at h
-    · rintro ⟨x', y', z', rest', he, h1, h2⟩
-      simp at he
-      obtain ⟨rfl, rfl, rfl, rfl⟩ := he
-      simp only [h1, h2, ↓reduceIte]
-      split <;> split <;> omega
-
 end RtcModel.LatchHistory
